@@ -36,6 +36,8 @@ pub enum Program {
 pub fn generate(prop: &str, seed: u64, tier: Tier) -> Program {
     let mut rng = prng::Rng::new(seed);
     match prop {
+        // one C01 program in eight drives the event set through the runtime (paused at limits, events added from outside)
+        "C01" if rng.chance(1, 8) => Program::Rt(rt::generate(prop, &mut rng, tier)),
         "C01" | "C15" => Program::Fes(fes::generate(prop, &mut rng, tier)),
         "C03" => match rng.below(5) {
             0 | 1 => Program::Fes(fes::generate(prop, &mut rng, tier)),
